@@ -12,7 +12,7 @@ import sys
 import time
 import zipfile
 
-from . import simchild
+from . import simchild, sysmon
 
 HERE = os.path.dirname(os.path.abspath(__file__))
 VERIF = os.path.dirname(HERE)
@@ -238,7 +238,7 @@ def host_env(host, opts, w):
 
 
 def run(w, world_files, opts, host=None, faults=None, crash_at=None, dump=False, record_imports=False,
-        keep_content=False, walk_packages=False, src=None):
+        keep_content=False, walk_packages=False, src=None, strace=False):
     """Execute one simulated run inside World w.
 
     world_files: {"config": relpath-in-cwd, "input": relpath-in-cwd} (already written with w.put)
@@ -299,6 +299,10 @@ def run(w, world_files, opts, host=None, faults=None, crash_at=None, dump=False,
     cmd = []
     if not host.get("aslr", False):
         cmd += setarch_cmd()
+    strace_out = None
+    if strace and sysmon.available():
+        strace_out = os.path.join(rundir, "strace.out")
+        cmd += sysmon.prefix(strace_out)
     cmd += [PYTHON, "-P", CHILD, spec_path]
     before = snapshot(w.world)
     t0 = time.monotonic()
@@ -326,6 +330,13 @@ def run(w, world_files, opts, host=None, faults=None, crash_at=None, dump=False,
     if os.path.exists(rp):
         with open(rp, encoding="utf-8") as fh:
             res["child"] = json.load(fh)
+    if strace_out is not None:
+        calls = sysmon.parse(strace_out)
+        vanished = [f["path"] for f in ((res["child"] or {}).get("faults") or []) if f.get("fault") == "vanish"]
+        sv, sn = sysmon.analyse(calls, layout, cwd, rundir, vanished)
+        res["sys"] = {"violations": sv, "counters": sn}
+    elif strace:
+        res["sys"] = {"unavailable": True}
     if "RP2SIM-CHILD-HARNESS-ERROR" in stderr or (res["child"] is None and not timed_out):
         raise HarnessError("child harness failure rc=%s stderr=%s" % (rc, stderr[-2000:]))
     # logs written by this run
@@ -407,7 +418,7 @@ def digest(res, w):
     doc = {"rc": res["rc"], "timed_out": res["timed_out"], "stdout": text(res["stdout"]), "stderr": text(res["stderr"]), "argv": norm(res["argv"]),
            "events": norm(child.get("events")), "faults": norm(child.get("faults")), "clock": child.get("clock"), "dumps": child.get("dumps"),
            "io_steps": child.get("io_steps"), "crashed": child.get("crashed"), "imports": child.get("imports"), "after": after,
-           "quiet_reads": child.get("quiet_reads")}
+           "quiet_reads": child.get("quiet_reads"), "sys": (res.get("sys") or {}).get("violations")}
     h = hashlib.sha256(json.dumps(doc, sort_keys=True, default=str).encode()).hexdigest()
     dump_dir = os.environ.get("RP2SIM_DIGEST_DUMP")
     if dump_dir:
